@@ -32,4 +32,14 @@ man = dict(
     not_applicable=na,
 )
 json.dump(man, open(os.path.join(here, 'MANIFEST.json'), 'w'), indent=1)
+# merge known findings
+entries = []
+for f in sorted(glob.glob(os.path.join(here, 'known_findings.d', 'C*.json'))):
+    for e in json.load(open(f)):
+        entries.append(e)
+ids = [e['id'] for e in entries]
+assert len(ids) == len(set(ids)), 'duplicate known-finding ids'
+kf = dict(comment="Committed list of genuine defects of the pinned starsim tree (kind=finding: reported as KNOWN-FINDING, never as VIOLATION) and of repaired ones (kind=fixed: suppress nothing). Assembled by tools/mkmanifest.py from known_findings.d/Cxx.json; never written at run time. A finding is identified by its signature: every key named there must equal the observed failure's signature, so a different violation of the same property is still reported.",
+          entries=entries)
+json.dump(kf, open(os.path.join(here, 'known_findings.json'), 'w'), indent=1)
 print(f'{len(checks)} checks, {len(na)} not claimed')
